@@ -1,4 +1,6 @@
 #!/bin/bash
+export VERIF_EVIDENCE_DIR=$(mktemp -d /tmp/seedev.XXXXXX)   # evidence of runs on a mutated tree is not evidence
+trap 'rm -rf $VERIF_EVIDENCE_DIR' EXIT
 # usage: tryseed.sh <patch.diff> <PID> [tier]   applies the patch to /repo, runs the check, reverts
 p="$1"; id="$2"; tier="${3:-quick}"
 cd /repo || exit 9
